@@ -1196,3 +1196,15 @@ Proof.
   intros H. unfold mapped_via_unique. apply map_ext_in. intros [[prow wrow] len] Hin. cbn [fst snd].
   apply unique_row_is_matrix_row. exact (H prow wrow len Hin).
 Qed.
+
+(* ====================================================================== L. symbolic execution of the model at ROps on literal inputs *)
+Ltac rdecide1 :=
+  match goal with
+  | |- context [Rltb ?a ?b] =>
+      first [ rewrite (proj2 (Rltb_true a b)) by lra | rewrite (proj2 (Rltb_false a b)) by lra ]
+  | |- context [Rleb ?a ?b] =>
+      first [ rewrite (proj2 (Rleb_true a b)) by lra | rewrite (proj2 (Rleb_false a b)) by lra ]
+  | |- context [Reqb ?a ?b] =>
+      first [ rewrite (proj2 (Reqb_true a b)) by lra | rewrite (proj2 (Reqb_false a b)) by lra ]
+  end.
+Ltac rexec := cbn; repeat (unfold maxT, minT, absT; cbn [ltb leb eqb ROps]; rdecide1; cbn).
